@@ -420,6 +420,10 @@ pub struct Generator<'a> {
     /// Position ID associated with the first token in `input_ids`.
     input_offset: usize,
 
+    /// Number of leading tokens in `input_ids` that have already been added to
+    /// `prev_tokens`.
+    recorded_input_len: usize,
+
     /// Input node IDs
     input_ids_input: NodeId,
 
@@ -607,6 +611,7 @@ impl<'a> Generator<'a> {
             input_ids: vec![],
             input_ids_input,
             input_offset: 0,
+            recorded_input_len: 0,
             logits_output,
             kv_cache,
             encoder_kv_cache,
@@ -659,6 +664,7 @@ impl<'a> Generator<'a> {
     /// [`append_prompt`](Self::append_prompt) instead.
     pub fn with_prompt(mut self, prompt: &[TokenId]) -> Self {
         self.input_ids = prompt.to_vec();
+        self.recorded_input_len = 0;
         self
     }
 
@@ -680,6 +686,7 @@ impl<'a> Generator<'a> {
     /// been generated. In other words, it does not "rewind" the conversation.
     pub fn clear_prompt(&mut self) {
         self.input_ids.clear();
+        self.recorded_input_len = 0;
     }
 
     /// Return the prompt that will be used for the next generation.
@@ -914,15 +921,18 @@ impl<'a> Generator<'a> {
             cache_entry.cache = Some(kv_cache);
         }
 
-        // Save prompt for use in logit filters.
-        if self.prev_tokens.is_empty() {
-            self.prev_tokens.extend(self.input_ids.iter());
-        }
+        // Save prompt for use in logit filters. Tokens at the start of
+        // `input_ids` which were sampled, or passed to the model in an earlier
+        // run (for models without a KV cache), have already been recorded.
+        self.prev_tokens
+            .extend(&self.input_ids[self.recorded_input_len..]);
+        self.recorded_input_len = self.input_ids.len();
 
         // Clear the prompt for the next generation.
         if !self.kv_cache.is_empty() {
             self.input_offset += self.input_ids.len();
             self.input_ids.clear();
+            self.recorded_input_len = 0;
         }
 
         if generate_logits {
@@ -971,6 +981,7 @@ impl<'a> Generator<'a> {
         // Append token to prompt for next generation.
         self.prev_tokens.push(next_id);
         self.input_ids.push(next_id);
+        self.recorded_input_len += 1;
 
         Ok(next_id)
     }
